@@ -110,6 +110,32 @@ func runC09(w *World, r *Report) {
 		r.Check(k == mil[m], "C09-R4", c, 0, fmt.Sprintf("both handlers agree (routes=%v)", k), fmt.Sprintf("MilvusDataHandler routes=%v but KafkaDataHandler routes=%v", mil[m], k))
 	}
 
+	// ---------- R8: the op helpers connect with exactly the database they were given
+	r.Rule("C09-R8", "the client is obtained for the requested database only", "in MilvusDataHandler.milvusOp and TargetClient.milvusOp every GetMilvusClient call receives the function's own database parameter", 2)
+	for _, spec := range []struct{ pkg, recv string }{{pkgWriter, "MilvusDataHandler"}, {pkgReader, "TargetClient"}} {
+		fn := w.Func(spec.pkg, spec.recv, "milvusOp")
+		cons := fmt.Sprintf("(*%s).milvusOp | client database", spec.recv)
+		if fn == nil {
+			r.Undecided("C09-R8", cons, 0, "anchor not found")
+			continue
+		}
+		dbParam := fn.Params[2]
+		n, good := 0, true
+		eachInstrDeep(fn, func(g *ssa.Function, in ssa.Instruction) {
+			c, ok := in.(*ssa.Call)
+			if !ok || callSym(c.Common()).name != "GetMilvusClient" {
+				return
+			}
+			n++
+			a := callArgs(c.Common())
+			fam := familyOf(g)
+			if len(a) < 4 || !(a[3] == ssa.Value(dbParam) || fam.canon(a[3]) == ssa.Value(dbParam) || baseObject(fam, a[3]) == ssa.Value(dbParam)) {
+				good = false
+			}
+		})
+		r.Check(good && n > 0, "C09-R8", cons, fn.Pos(), fmt.Sprintf("%d GetMilvusClient call(s), all for the requested database", n), "a client for a different database (e.g. the default one) can be used for this operation: an object of a non-default database is operated on in another database")
+	}
+
 	// ---------- enumerate ChannelWriter functions
 	var cwFuncs []*ssa.Function
 	for _, fn := range w.RepoFuncs() {
